@@ -130,10 +130,14 @@ def atom_ids(es, sig):
     return {x: es["pool"].id(z3.Bool(x)) for x in sig}
 
 
-def check_faithful(res, prop, sig, conds, via_query):
+def check_faithful(res, prop, sig, conds, via_query, reuse_state=None):
     """All three encodings of every conditional x all complete assignments."""
     bb = drive.mkbb(sig, conds)
     es, tt = new_state(bb)
+    if reuse_state is not None:
+        # low-level API: the same epistemic state object is handed a different base (same keys) and translated again
+        es, tt = reuse_state
+        es["belief_base"] = bb
     try:
         if via_query:
             # the queries of one group are translated one after the other on ONE epistemic state and all carry the same
@@ -172,6 +176,7 @@ def check_faithful(res, prop, sig, conds, via_query):
             else:
                 res.nontrivial.add(hash((cnd, which, via_query)))
         res.outcomes.add((len(e.get("v", [])), len(e.get("f", [])), len(e.get("nf", []))))
+    return es, tt
 
 
 def minimal_sets(family):
@@ -315,8 +320,10 @@ class C15(Check):
         res = Result()
         if task[0] == "faith":
             _k, sig, conds = task
+            state = None
             for i in range(0, len(conds), 4):
-                check_faithful(res, self.id, sig, conds[i:i + 4], False)
+                st = check_faithful(res, self.id, sig, conds[i:i + 4], False, reuse_state=state if (i // 4) % 2 else None)
+                state = st if st else None
                 check_faithful(res, self.id, sig, conds[i:i + 4], True)
             res.samples.append({"conditionals": [forms.ctxt(c) for c in conds[:2]], "assignments_each": 1 << len(sig)})
         else:
